@@ -1,3 +1,28 @@
+mod c33;
+mod c34;
+mod c35;
+mod c36;
+mod c37;
+mod c38;
+mod c39;
+mod forge;
+mod gen;
+mod pp;
+mod run;
+mod selftest;
+mod view;
+
+use pvkit::session::CheckDef;
+
 fn main() {
-    pvkit::main(&[]);
+    pvkit::main(&[
+        CheckDef { id: "SELFTEST", level: "exploration", run: selftest::run },
+        CheckDef { id: "C33", level: "exploration", run: c33::run },
+        CheckDef { id: "C34", level: "exploration", run: c34::run },
+        CheckDef { id: "C35", level: "exploration", run: c35::run },
+        CheckDef { id: "C36", level: "exploration", run: c36::run },
+        CheckDef { id: "C37", level: "exploration", run: c37::run },
+        CheckDef { id: "C38", level: "exploration", run: c38::run },
+        CheckDef { id: "C39", level: "exploration", run: c39::run },
+    ]);
 }
